@@ -1,6 +1,6 @@
 #!/bin/bash
 # Build the framework from files on disk only (offline): translate tables, build Lean library + driver.
-set -e
+set -e -o pipefail
 cd "$(dirname "$0")"
 mkdir -p work evidence replays
 /venv/bin/python tools/translate.py
